@@ -6,7 +6,17 @@ import re
 import time
 
 import vlib
+import selftest
 from vlib import Outcome, ToolError, log
+
+
+def s5(out, module, constants, log_path, kind, wd, n=3):
+    """binding self-test by trace corruption; a corruption that is NOT rejected means the trace specification does not
+    constrain that field: a defect of the machinery (exit 2), never a verdict about the code"""
+    r = selftest.run(vlib, module, constants, log_path, kind, wd, n=n, seed=vlib.seed())
+    out.cov.setdefault("binding_selftest", {})[kind] = r
+    if r["mutated"] and r["rejected"] < r["mutated"]:
+        raise ToolError("binding self-test: a corrupted %s log was accepted by %s: %s" % (kind, module, [c for c in r["cases"] if not c["rejected"]][:1]))
 
 REAL = {"Base": 65536, "Thr": "<- ThrReal"}
 
@@ -216,6 +226,8 @@ def check_C12(tier):
 def check_C13(tier):
     out = Outcome("C13", tier, "model_checking")
     wd = vlib.workdir("C13")
+    r = vlib.model_check("MC_Msg.tla", "MC_Msg.cfg", wd, workers=4)
+    out.add_s1(r, "MC_Msg (RtmpMsg layouts: sound, injective, aliases, size bound; boundary field values)")
     r = vlib.model_check("MC_Amf0.tla", "MC_Amf0_quick.cfg", wd)
     out.add_s1(r, "MC_Amf0 (the AMF0 reference used for command/data bodies)")
     vlib.build_harness()
@@ -270,12 +282,44 @@ SESS_ASSUME = ["session logs at message level: inbound messages are encoded and 
                "the read-only probe hook reports the session's state faithfully", "TLC; harness logger"]
 
 
+def skeleton_logs(out, wd, side, tier):
+    """S2: TLC prints every transition of the small session model; a transition-covering set of input paths is
+    replayed on the real session (fresh ids re-bound to what the real session hands out)."""
+    mod = "Gen_Server" if side == "server" else "Gen_Client"
+    cfg = os.path.join(vlib.SPEC, mod + (".cfg" if tier == "quick" else "_big.cfg"))
+    if not os.path.exists(cfg):
+        cfg = os.path.join(vlib.SPEC, mod + ".cfg")
+    r = vlib.tlc(mod + ".tla", cfg, wd, workers=1, timeout=1200, xss="64m", xmx="8g")
+    if not r["completed"] or r["violated"]:
+        log(r["out"][-2000:])
+        raise ToolError("S2 generation %s failed" % mod)
+    raw = os.path.join(wd, mod + ".edges")
+    with open(raw, "w") as f:
+        f.write(r["out"])
+    paths = os.path.join(wd, mod + ".paths.json")
+    import subprocess
+    p = subprocess.run(["python3", os.path.join(vlib.VERIF, "lib", "gen_skeletons.py"), raw, paths, "40"], stdout=subprocess.PIPE, text=True)
+    info = json.loads(p.stdout.strip().splitlines()[-1])
+    os.remove(raw)
+    vlib.build_harness()
+    shards = 8
+
+    def gen(i):
+        path = os.path.join(wd, "skel_%s_%d.ndjson" % (side, i))
+        q = vlib.harness(["skel", side, i, shards, paths, "--out", path])
+        return path, vlib.last_json(q.stdout)
+    logs = vlib.parallel([(lambda i=i: gen(i)) for i in range(shards)], nproc=8)
+    out.cov["s2"] = {"model": mod, "model_states": info["states"], "model_transitions": info["transitions"],
+                     "covering_paths": info["paths"], "steps_replayed_on_real_session": sum(i.get("steps", 0) for _, i in logs)}
+    return logs
+
+
 def check_C09(tier):
     out = Outcome("C09", tier, "model_checking")
     wd = vlib.workdir("C09")
     r = vlib.model_check("MC_Server.tla", "MC_Server_full.cfg" if tier == "quick" else "MC_Server_big.cfg", wd, timeout=1500)
     out.add_s1(r, "MC_Server (every history over the small alphabet; history variables restate C09; no depth bound)")
-    logs = sess_logs(wd, "server", "hist", tier)
+    logs = sess_logs(wd, "server", "hist", tier) + skeleton_logs(out, wd, "server", tier)
     sess_validate(out, "Trace_Server.tla", logs, wd, lambda v: v["class"] == "SRV", "c09")
     sample_events(out, logs[0][0], ("In", "Call"), n=3)
     out.assumptions = SESS_ASSUME
@@ -289,7 +333,7 @@ def check_C10(tier):
     wd = vlib.workdir("C10")
     r = vlib.model_check("MC_Client.tla", "MC_Client_full.cfg" if tier == "quick" else "MC_Client_big.cfg", wd, timeout=1500)
     out.add_s1(r, "MC_Client (every history over the small alphabet; observation-driven history state restates C10)")
-    logs = sess_logs(wd, "client", "hist", tier)
+    logs = sess_logs(wd, "client", "hist", tier) + skeleton_logs(out, wd, "client", tier)
     sess_validate(out, "Trace_Client.tla", logs, wd, lambda v: v["class"] == "CLI", "c10")
     sample_events(out, logs[0][0], ("In", "Call"), n=3)
     out.assumptions = SESS_ASSUME
@@ -552,8 +596,23 @@ def check_C20(tier):
 
 
 def replay(path):
+    """Re-validate a stored replay file: the events of the failing run go through the same trace specification again."""
     with open(path) as f:
         body = json.load(f)
     print(json.dumps({k: body[k] for k in body if k != "events"}, indent=1))
-    print("events of the failing run: %d (failing line in run: %s)" % (len(body.get("events", [])), body.get("failing_line_in_run")))
-    return 0
+    evs = body.get("events", [])
+    print("events of the failing run: %d (failing line in run: %s)" % (len(evs), body.get("failing_line_in_run")))
+    mod = body.get("module")
+    if not mod:
+        return 0
+    wd = vlib.workdir("replay")
+    trace = os.path.join(wd, "replay.ndjson")
+    with open(trace, "w") as f:
+        for e in evs:
+            f.write(json.dumps(e) + "\n")
+    r = vlib.validate_trace(mod, trace, wd, body.get("constants") or {})
+    for v in r["verdicts"]:
+        print("VERDICT [%s] %s (line %d of the replayed run)" % (v["class"], v["why"], v["line"]))
+    if not r["verdicts"]:
+        print("the replayed run is accepted by %s" % mod)
+    return 1 if r["verdicts"] else 0
